@@ -1,6 +1,7 @@
 pub mod c01_04;
 pub mod c07_12_13;
 pub mod c06_08_16;
+pub mod c14_15;
 
 use crate::alpha::*;
 use crate::report::*;
@@ -70,6 +71,14 @@ pub fn run(prop: &str, tier: &str) -> i32 {
                 run.explore(&items, c06_08_16::eval_c16, |s| s.0.to_json());
             }
         }
+        "C14" => {
+            run.rule = format!("{}; x all 2^n masks (n <= 3) x {{without faces, with faces (3D)}}; recording integrals implemented by this downstream crate (monomials of degree <= 2, face triangles)", E1_RULE);
+            run_e1(&mut run, &[1, 2, 3], &[false, true], 99, c14_15::eval_c14);
+        }
+        "C15" => {
+            run.rule = format!("3D states of: {}; x all 2^n masks (n <= 3); per cell all type-state operation sequences of length <= 4 over {{with_faces, discard_faces, clone, integrals}}; 1D/2D states: with_faces must be rejected", E1_RULE);
+            run_e1(&mut run, &[1, 2, 3], &[false, true], 99, c14_15::eval_c15);
+        }
         _ => {
             eprintln!("unknown property {}", prop);
             return 2;
@@ -109,6 +118,8 @@ pub fn replay(path: &str) -> i32 {
                 c06_08_16::eval_c16(&(st.clone(), vec![]))
             }
         }
+        "c14" => c14_15::eval_c14(&st),
+        "c15" => c14_15::eval_c15(&st),
         "c07" => c07_12_13::eval_c07_with(&st, 5),
         "c12" => c07_12_13::eval_c12(&st),
         "c13" => c07_12_13::eval_c13(&st),
